@@ -72,7 +72,10 @@ Inductive iop :=
 | IRegisterERC20 (contract base : Z) (aliases : list Z)        (* base = lower-cased symbol of the contract *)
 | IToggle (by_contract : bool) (k : Z)
 | IUpdateAlias (denom a : Z)
-| IRemove (denom : Z).                                        (* conversion attempted on a pair whose contract is dead *)
+| IRemove (denom : Z)                                         (* conversion attempted on a pair whose contract is dead *)
+| IExportImport.   (* genesis export + InitChain of a new application on the exported file: ExportGenesis writes params and
+                      the pairs, InitGenesis runs AddTokenPair (pair, denom index, contract index) on each; the bank module
+                      carries the metadata over.  The alias index is neither exported nor rebuilt. *)
 
 Definition eq_aliases (a b : list Z) : bool :=
   (Z.of_nat (length a) =? Z.of_nat (length b)) && forallb (fun p => fst p =? snd p) (combine a b).
@@ -143,6 +146,7 @@ Definition irun (o : iop) (s : istate) : option istate :=
                 meta := meta s; mstyle := mstyle s |}
       end
     end
+  | IExportImport => Some {| pairs := pairs s; by_denom := by_denom s; by_erc := by_erc s; alias := []; meta := meta s; mstyle := mstyle s |}
   end.
 
 Definition istep (s : istate) (o : iop) : istate * bool :=
